@@ -220,11 +220,17 @@ func (r *renderer) field(p *Program, owner string, f *Field, inInline bool, ro R
 				for ki, k := range pr.Keys {
 					r.line()
 					r.mark(fmt.Sprintf("pair:%s#%d.%d", site, pi, ki))
-					r.site = "pair-start"
+					// the last pair of a table is its own position class: what follows it is the
+					// closing brace, not another pair
+					pairSite := "pair"
+					if pi == len(f.Pairs)-1 && ki == len(pr.Keys)-1 {
+						pairSite = "lastpair"
+					}
+					r.site = pairSite + "-start"
 					r.emit(k)
 					r.emit(":")
 					r.emit(pr.Target)
-					r.site = "pair-end"
+					r.site = pairSite + "-end"
 					if r.sp.Choose("paircomma:"+site, 2) == 0 {
 						r.emit(",")
 					}
@@ -238,7 +244,11 @@ func (r *renderer) field(p *Program, owner string, f *Field, inInline bool, ro R
 				pairID = pr.Mark
 			}
 			r.mark(pairID)
-			r.site = "pair-start"
+			pairSite := "pair"
+			if pi == len(f.Pairs)-1 {
+				pairSite = "lastpair"
+			}
+			r.site = pairSite + "-start"
 			if aslist {
 				r.emit("[")
 				for ki, k := range pr.Keys {
@@ -257,7 +267,7 @@ func (r *renderer) field(p *Program, owner string, f *Field, inInline bool, ro R
 			}
 			r.emit(":")
 			r.emit(pr.Target)
-			r.site = "pair-end"
+			r.site = pairSite + "-end"
 			if r.sp.Choose("paircomma:"+site, 2) == 0 {
 				r.emit(",")
 			}
